@@ -26,6 +26,8 @@ class SmoothMap:
         self.c = rng.uniform(-1, 1, m)
         self.D = rng.uniform(-2, 2, (m, n))
         self.linear = linear
+        self.mixed = (seed % 3 == 0) and m >= 2
+        self.sgn = -1.0 if (seed // 3) % 2 else 1.0
         self.ncalls = 0
 
     def __call__(self, x, **kw):
@@ -33,7 +35,12 @@ class SmoothMap:
         xf = np.asarray(x).reshape(-1)
         if self.linear:
             return (self.D @ xf).reshape(self.fs)
-        return (self.A @ np.sin(self.B @ xf + self.c) + self.D @ xf).reshape(self.fs)
+        out = self.A @ np.sin(self.B @ xf + self.c) + self.D @ xf
+        if self.mixed:      # first half of the outputs purely linear (their finite differences converge at once), sign flipped for odd seeds
+            h = len(out) // 2
+            out[:h] = (self.D @ xf)[:h]
+            out = self.sgn * out
+        return out.reshape(self.fs)
 
     def jac(self, x):
         xf = np.asarray(x, dtype=np.longdouble).reshape(-1)
@@ -41,6 +48,10 @@ class SmoothMap:
             J = self.D.astype(np.longdouble)
         else:
             J = self.A.astype(np.longdouble) @ (np.cos(self.B.astype(np.longdouble) @ xf + self.c)[:, None] * self.B) + self.D
+            if self.mixed:
+                h = J.shape[0] // 2
+                J[:h] = self.D[:h]
+                J = self.sgn * J
         return J.reshape(self.fs + self.xs)
 
 
@@ -144,25 +155,29 @@ def _fd(spec):
 
 
 class TimeRHS:
-    """time-dependent right-hand side with analytic Jacobian; optional `.jac` attribute is attached by the case."""
+    """time-dependent right-hand side with analytic Jacobian; the time dependence varies by O(1) over the spread of the times used
+    (omega, tref), so that differentiating at a neighbouring cached time is visible whatever the time scale is."""
 
-    def __init__(self, shape, seed):
+    def __init__(self, shape, seed, omega=1.0, tref=0.0):
         rng = rng_for(1604, seed)
         self.shape = tuple(shape)
         n = int(np.prod(shape))
         self.M1 = rng.uniform(-1, 1, (n, n))
         self.M2 = rng.uniform(-1, 1, (n, n))
+        self.omega, self.tref = float(omega), float(tref)
         self.calls = 0
 
     def __call__(self, t, y, **kw):
         self.calls += 1
         yf = np.asarray(y).reshape(-1)
-        return (np.sin(t) * (self.M1 @ yf) + (1 + t * t) * np.tanh(self.M2 @ yf)).reshape(self.shape)
+        ph = self.omega * (t - self.tref)
+        return (np.sin(ph) * (self.M1 @ yf) + (1.5 + np.cos(ph)) * np.tanh(self.M2 @ yf)).reshape(self.shape)
 
     def true_jac(self, t, y):
         yf = np.asarray(y, dtype=np.longdouble).reshape(-1)
         th = np.tanh(self.M2.astype(np.longdouble) @ yf)
-        J = np.sin(np.longdouble(t)) * self.M1 + (1 + np.longdouble(t) ** 2) * ((1 - th ** 2)[:, None] * self.M2)
+        ph = np.longdouble(self.omega) * (np.longdouble(t) - np.longdouble(self.tref))
+        J = np.sin(ph) * self.M1 + (1.5 + np.cos(ph)) * ((1 - th ** 2)[:, None] * self.M2)
         return J.reshape(self.shape + self.shape)
 
 
@@ -170,7 +185,10 @@ def _wrapper(spec):
     import desolver as de
     rng = rng_for(1605, spec["pseed"])
     shape = tuple(spec["shape"])
-    f = TimeRHS(shape, spec["pseed"])
+    tsets = [[0.0, 0.7, -1.3, 2.1], [0.0, 3e-9, 7e-9, -2e-9], [1.0e3, 1.0e3 + 0.004, 1.0e3 - 0.007, 1.0e3 + 0.0095], [1.7e9, 1.7e9 + 1000.0, 1.7e9 - 5000.0, 1.7e9 + 16000.0]]
+    times = tsets[spec["pseed"] % 4]
+    spread = max(times) - min(times)
+    f = TimeRHS(shape, spec["pseed"], omega=2.3 / spread, tref=times[0])
     n = int(np.prod(shape))
     SENT = {"attr": 111.0, "hook": 222.0, "assign": 333.0}
     user_calls = {"attr": 0, "hook": 0, "assign": 0}
@@ -183,9 +201,8 @@ def _wrapper(spec):
     if spec["attr"]:
         f.jac = mk("attr")
     W = de.DiffRHS(f)
-    times = [0.0, 0.7, -1.3, 2.1]
     rec = util.Rec(sig="wrapper|%s|%s|%s" % (spec["attr"], shape, "".join(h[0][0] + (str(h[1]) if len(h) > 1 else "") for h in spec["hist"])))
-    feats = {"kind": "wrapper", "attr": spec["attr"]}
+    feats = {"kind": "wrapper", "attr": spec["attr"], "time_set": spec["pseed"] % 4}
     rec.bump("wrapper_histories")
     attached = "attr" if spec["attr"] else None
     last_unhook = False
